@@ -273,6 +273,17 @@ Definition mon_checked (v : list Z) : bool :=
   | None => false
   end.
 
+(* ---- 521 / 522 / 523: ByteEq / ByteHash (C18) ----
+   521: eq bytes_eq ne_consistent law_std law_fx single_write_a single_write_b
+   522: len bytes_eq law_fx single_write        523: reflexive symmetric transitive *)
+Definition model_byte_pair (v : list Z) : list Z := [nthz 1 v; nthz 1 v; 1; 1; 1; 1; 1].
+Definition mon_byte_pair (v : list Z) : bool :=
+  (nthz 0 v =? nthz 1 v) && (nthz 2 v =? 1) && (nthz 3 v =? 1) && (nthz 4 v =? 1) && (nthz 5 v =? 1) && (nthz 6 v =? 1).
+Definition model_byte_slice (v : list Z) : list Z := [nthz 0 v; nthz 1 v; 1; 1].
+Definition mon_byte_slice (v : list Z) : bool := (nthz 2 v =? 1) && (nthz 3 v =? 1).
+Definition model_byte_laws (v : list Z) : list Z := [1; 1; 1].
+Definition mon_byte_laws (v : list Z) : bool := (nthz 0 v =? 1) && (nthz 1 v =? 1) && (nthz 2 v =? 1).
+
 Definition xmodel2 (a : acase) (v : list Z) : list Z :=
   match a_fn a with
   | 501%N => model_derive_struct v
@@ -281,6 +292,9 @@ Definition xmodel2 (a : acase) (v : list Z) : list Z :=
   | 504%N => model_offset_deref v
   | 511%N => model_enum v
   | 512%N => model_checked v
+  | 521%N => model_byte_pair v
+  | 522%N => model_byte_slice v
+  | 523%N => model_byte_laws v
   | 513%N => model_minmax v
   | 514%N => model_valid v
   | _ => xmodel a v
@@ -293,6 +307,9 @@ Definition xmonitors2 (a : acase) (v : list Z) : list (N * bool) :=
   | 504%N => [(19%N, mon_offset_deref v)]
   | 511%N => [(6%N, mon_enum v)]
   | 512%N => [(8%N, mon_checked v)]
+  | 521%N => [(18%N, mon_byte_pair v)]
+  | 522%N => [(18%N, mon_byte_slice v)]
+  | 523%N => [(18%N, mon_byte_laws v)]
   | 513%N => [(6%N, mon_minmax v); (17%N, mon_minmax v)]
   | 514%N => [(6%N, mon_valid v)]
   | _ => xmonitors a v
